@@ -29,6 +29,7 @@ From Coq Require Import List.
 From Coq Require String.
 Import String.StringSyntax.
 From DT Require Import PyStr PyVal PureUtils Defaults IR Fill DocEmit C18Spec DocParse C01Spec C18ParseSpec C18Parse C18FillTidy C18ParseDflt.
+From DT Require Import C18Spec2 C18Spec2Facts.
 Import ListNotations.
 
 Theorem C18_rest_pieces : forall w edd i,
@@ -208,3 +209,30 @@ Theorem C18_default_split_typed_witness :
                        /\ g_default pw = Some (DV (VStr (L "a b c d" ++ [nl] ++ L "    e f g h")))).
 Proof. exact C18_default_split_typed_witness_lemma. Qed.
 Print Assumptions C18_default_split_typed_witness.
+
+(* ---- the classifier refined by what the reader does with default sentences (model/C18Spec2.v) ---- *)
+
+(* with a reader that keeps the sentence it is the old classifier; its guard is inside the old guard; it only ever adds
+   the class default-sentence-wrapped, and only for the reader that drops the sentence *)
+Theorem C18_classifier_r_keep : forall w e i, finding_class_C18_r true w e i = finding_class_C18 w e i.
+Proof. exact finding_class_C18_r_keep. Qed.
+Print Assumptions C18_classifier_r_keep.
+
+Theorem C18_guard_r_inside : forall k w e i, guard_C18_r k w e i = true -> guard_C18 w e i = true.
+Proof. exact guard_C18_r_inside. Qed.
+Print Assumptions C18_guard_r_inside.
+
+Theorem C18_classifier_r_adds : forall k w e i c,
+    finding_class_C18_r k w e i = Some c -> finding_class_C18 w e i = Some c \/ (k = false /\ c = K18_default_wrapped).
+Proof. exact finding_class_C18_r_adds. Qed.
+Print Assumptions C18_classifier_r_adds.
+
+(* the point the parse-level proof found (typed parameter, split default sentence, reader with emit_default_doc=False) *)
+Theorem C18_split_typed_default_classified :
+  finding_class_C18 30 (E_docstring DocEmit.Rest) c18_w_default_split = None
+  /\ finding_class_C18_r false 30 (E_docstring DocEmit.Rest) c18_w_default_split = Some K18_default_wrapped
+  /\ finding_class_C18_r true 30 (E_docstring DocEmit.Rest) c18_w_default_split = None
+  /\ C18_rest_parse_at_b 30 false c18_w_default_split = false
+  /\ C18_rest_parse_at_b 30 true c18_w_default_split = true.
+Proof. exact split_typed_default_classified. Qed.
+Print Assumptions C18_split_typed_default_classified.
